@@ -52,6 +52,7 @@ def record(case):
         ref_final = observe.ref_at(blocks, len(blocks) - 1, ACT)
         obs_final = observe.observe(w, ref_final, what=crashrun.WHAT)
         bad = observe.compare(obs_final, ref_final, crashrun.WHAT)
+        obs_final['undo_window'] = crashrun.undo_window(w, wparams['reorg_limit'])
         if bad or not w.at_daemon_tip():
             raise UninterruptedWrong(repr(bad[:1])[:300])
         batch_sizes = dict(m0.stores.batch_sizes)
